@@ -143,6 +143,37 @@ def _gen_common(rng, tier, routes, **treekw):
     pl = 2 ** exp
     tree = gen.gen_tree(rng, pl, tier, **treekw)
     auto = rng.random() < 0.12
+    c = rng.random()
+    single_ok = treekw.get("allow_single", True)
+    if c < 0.012:
+        # the largest piece lengths the tool accepts (32 MiB, given as exponent or as bytes) with a payload of more
+        # than one such piece
+        exp = 25
+        pl = 2 ** exp
+        big = ["img.bin", pl + rng.choice([3000, 16384 * 3 + 1, 2 ** 20 + 7, 1]), rng.randrange(1 << 30)]
+        tree = {"name": "giant", "single": False, "dirs": [], "layout": "giant-pieces", "links": [],
+                "files": [big, ["small.txt", rng.choice([0, 1, 40000]), rng.randrange(1 << 30)]]}
+        if single_ok and rng.random() < 0.4:
+            tree = {"name": "img.bin", "single": True, "dirs": [], "layout": "giant-pieces", "files": [big]}
+        auto = False
+    elif c < 0.024:
+        # payloads whose TOTAL crosses the first automatic piece-length threshold (16 384 000 bytes) while every single
+        # file stays far below it; piece length left to the tool
+        n = rng.randint(40, 60)
+        tree = {"name": "album", "single": False, "dirs": [], "layout": "auto-threshold", "links": [],
+                "files": [[f"cd{k % 3}/track{k:02d}.bin", rng.randint(330000, 480000), rng.randrange(1 << 30)] for k in range(n)]}
+        auto = True
+    elif c < 0.034 and not treekw.get("layout"):
+        # well over a thousand small files and the piece length left to the tool (with align the padded stream is
+        # many times larger than the payload)
+        tree = gen.gen_tree(rng, pl, tier, layout="thousands", **{k: v for k, v in treekw.items() if k != "layout"})
+        auto = True
+    elif c < 0.07:
+        # preallocated / sparse files and disk images with an unused tail: zero bytes are payload like any other
+        for f in tree["files"]:
+            if f[1] and rng.random() < 0.6:
+                f[2] = rng.choice(["zero", "ztail:%d" % rng.randrange(1 << 30)])
+        tree["layout"] += "+zeros"
     return {
         "tree": tree, "pl_exp": exp, "pl": None if auto else _pl_form(rng, exp),
         "route": rng.choice(routes), "progress": rng.choice([0, 1, 2]),
